@@ -55,6 +55,12 @@ func (c *checkSchema) checkType(name string, typ schema.Type, ss map[string]sche
 		panic(r)
 	}()
 
+	if typ.Schema().RootNode() == nil {
+		err := errors.NewDocumentError(typ.RootFile(), errors.Format(errors.ErrEmptyType, name))
+		err.SetIncorrectUserType(name)
+		panic(err)
+	}
+
 	c.checkNode(typ.Schema().RootNode(), ss)
 }
 
